@@ -26,6 +26,8 @@ func runC05(c *Ctx) {
 	c.Rule("C05.O3", "E4", "Execute/MustExecute start the drainer only on 'list was empty', decided in the critical section of the tail append", 2)
 	c.Rule("C05.O4", "E1-atomic", "drainer: exhaustion test, list reset and next-job fetch in one critical section; job runs with the mutex released; index advances by one", 1)
 	c.Rule("C05.O5", "E4", "the job, the default Engine.Execute and SyncExecutor run the function inside a frame that defers recover()", 3)
+	c.Rule("C05.O7", "E4", "a job handed to a connection's Execute is never also called directly by the submitter: a refused job (closed connection) is dropped, not run inline next to the jobs still queued or running", 4)
+	c05NoInlineRun(c)
 	c.Rule("C05.O6", "E5", "MustExecute has no closed test; the nbhttp close hook works only inside a MustExecute job; poller-path parsers and WebSocket conns use the bound Execute of the registered connection", 6)
 
 	L := c.Locks()
@@ -348,6 +350,46 @@ func wsExecutorStores(c *Ctx, ob string) {
 				why = "the WebSocket connection is given the inline executor at " + c.Pos(st) + " although it is served by the poller: its callbacks bypass the connection's job list, so the close job queued with MustExecute overlaps a running message callback"
 			}
 			c.Cond(ok, ob, key, c.Pos(st), "inherits a serialising executor", why)
+		}
+	}
+}
+
+// c05NoInlineRun: O7.  Execute returning false means the job was not taken and
+// must not run: the connection is closed, but jobs queued before may still be
+// running or waiting.  A submitter that calls the refused job itself runs it
+// on its own goroutine, overlapping or overtaking them.
+func c05NoInlineRun(c *Ctx) {
+	isExec := func(name string) bool {
+		return name == "(*nbio.Conn).Execute" || name == "dyn:websocket.Conn.Execute" || name == "dyn:nbhttp.Parser.Execute"
+	}
+	n := 0
+	for _, f := range c.libFuncs() {
+		fi := c.P.Info(f)
+		k := 0
+		for _, cs := range c.P.Calls(f, func(name string, _ ir.CallSite) bool { return isExec(name) }) {
+			if cs.In.Parent() != f {
+				continue
+			}
+			args := cs.Common.Args
+			if len(args) == 0 {
+				continue
+			}
+			job := ir.Resolve(args[len(args)-1])
+			n++
+			k++
+			key := c.siteKey(f, "Execute", k)
+			bad := ""
+			vis, _ := fi.Reach([]ssa.Instruction{cs.In}, nil)
+			for in := range vis {
+				oc, ok := ir.AsCall(in)
+				if !ok || oc.Common.IsInvoke() {
+					continue
+				}
+				if ir.Resolve(oc.Common.Value) == job {
+					bad = "the job handed to Execute at " + c.Pos(cs.In) + " is also called directly at " + c.Pos(in) + ": when Execute refuses it (closed connection) it runs on the submitter's goroutine, next to the jobs of this connection that are still queued or running"
+				}
+			}
+			c.Cond(bad == "", "C05.O7", key, c.Pos(cs.In), "the job value has no direct call after the submission", bad)
 		}
 	}
 }
